@@ -477,6 +477,8 @@ func (n *Node) canonTo(b *strings.Builder) {
 	case kBig:
 		if q, ok := n.ratVal(); ok && q.IsInt() {
 			b.WriteString(q.Num().String())
+		} else if ok {
+			b.WriteString("big:" + q.RatString())
 		} else {
 			b.WriteString("big:" + n.S)
 		}
